@@ -20,3 +20,25 @@ mutant('c11-loop-forgets-open-handlers','C11','pushLoop',CU,'	l.tryDepth = self.
 mutant('c11-try-not-counted','C11','compileExpr',CE,'		self.tryDepth++\n		self.compileBlock(node.TryBlock, true)\n		self.tryDepth--\n','		self.compileBlock(node.TryBlock, true)\n')
 mutant('c11-try-count-leaks','C11','compileExpr',CE,'		self.compileBlock(node.TryBlock, true)\n		self.tryDepth--\n','		self.compileBlock(node.TryBlock, true)\n')
 mutant('c11-lambda-inherits-handlers','C11','compileFn',CF,'	self.tryDepth = 0\n','')
+mutant('c01-catch-ident-leaks','C01','compileExpr',CE,'''		self.insert(newOneStringInstruction(Opcode_Label, exceptionLabel), node.Range)
+		self.pushScope()
+		defer self.popScope()
+		// The error identifier is only bound inside of the catch block.
+		mangledExceptionName := self.mangleVar(node.CatchIdent.Ident())
+''','''		mangledExceptionName := self.mangleVar(node.CatchIdent.Ident())
+		self.insert(newOneStringInstruction(Opcode_Label, exceptionLabel), node.Range)
+		self.pushScope()
+		defer self.popScope()
+''')
+mutant('c01-match-arm-scope-leak','C01','compileExpr',CE,'''		self.compileBlock(node.CatchBlock, false)
+''','''		self.compileBlock(node.CatchBlock, false)
+		self.pushScope()
+''')
+mutant('c11-call-arg-loop-leak','C11','compileCallExpr',CE,'''		if base.Ident.Ident() == "throw" {
+			self.insert(newPrimitiveInstruction(Opcode_Throw), node.Range)
+			return
+		}''','''		if base.Ident.Ident() == "throw" {
+			self.insert(newPrimitiveInstruction(Opcode_Throw), node.Range)
+			self.tryDepth = 0
+			return
+		}''')
